@@ -649,6 +649,8 @@ func exValues() []interface{} {
 		[]int{1, 2}, exInts{3}, map[string]int{"a": 1}, exMap{"b": 2}, func() int { return 7 }, exFn(func() int { return 8 }),
 		"str", exStr("xs"), error(&MyErr{N: 5}), &MyErr{N: 6}, exMarker{A: 1, B: "b"}, &exMarker{A: 2}, 42, 3.5,
 		func() interface{} { _, v := twinTypeA(); return v }(), func() interface{} { _, v := twinTypeB(); return v }(),
+		// nil but TYPED values: valid (empty) values of their exact types
+		[]int(nil), map[string]int(nil), exFn(nil), exInts(nil),
 	}
 }
 
@@ -716,6 +718,23 @@ func evalC10X(c *engine.Case) engine.Verdict {
 			v.Class("panic")
 			return v
 		}
+		// C03/C10: a supplied value of EXACTLY the target type (a nil slice,
+		// map or func of that type included) is a direct match: both succeed.
+		// (Not for error: a value of dynamic type *MyErr is not of type error;
+		// not for marker structs: their fields are the parameters.)
+		exact := false
+		for _, i := range x.Inputs {
+			if reflect.TypeOf(vals[i%len(vals)]) == typ && typ.Kind() != reflect.Interface && typ != reflect.TypeOf(exMarker{}) && typ != reflect.TypeOf(&exMarker{}) {
+				exact = true
+			}
+		}
+		if exact && rep == 0 {
+			v.Class("exact-typed-input")
+		}
+		if exact && (cerr != nil || ierr != nil) {
+			v.Failf("a value of exactly the target type %v was supplied, but Convert err=%.80v, identity call err=%.80v", typ, cerr, ierr)
+			return v
+		}
 		if (cerr == nil) != (ierr == nil) {
 			v.Failf("Convert(%v) succeeded=%v (err %.80v) but calling func(%v) %v succeeded=%v (err %.80v)", typ, cerr == nil, cerr, typ, typ, ierr == nil, ierr)
 			return v
@@ -751,7 +770,7 @@ func genC10X(g engine.G) *engine.Case {
 	var x C10XCase
 	x.Target = g.Int(0, len(exTypes)-1)
 	for i, n := 0, g.Int(0, 3); i < n; i++ {
-		x.Inputs = append(x.Inputs, g.Int(0, 15))
+		x.Inputs = append(x.Inputs, g.Int(0, 19))
 	}
 	if g.Pct(60) && len(x.Inputs) > 0 {
 		// bias: an input "near" the target type (same index or its neighbour)
